@@ -98,6 +98,11 @@ func scenarioC01(x *runner.X) {
 	}
 	disk := t.Bool(0.45)
 	remote := t.Bool(0.3)
+	if len(w.Objects) > 8000 {
+		// the range cache walks its whole entry map on every insertion: tens of thousands of objects
+		// behind it cost minutes per run in the simulator; C17 is the check of the cache
+		remote = false
+	}
 	x.Digest(w.Describe(), bucketKnob, disk, remote)
 	x.Note("world", w.Describe())
 	x.Note("entries_per_bucket_knob", bucketKnob)
